@@ -121,7 +121,8 @@ Fixpoint tick_streams (all_msgs_len drained : N) (l : list stream) : res (list s
 
 Definition set_tick_fc (fc : fctx) (streams : list stream) (all_len drained : N) : fctx :=
   {| fc_collect := fc_collect fc; fc_sort := fc_sort fc; fc_plugins := fc_plugins fc; fc_paused := fc_paused fc;
-     fc_streams := streams; fc_all_len := all_len; fc_drained := drained |}.
+     fc_streams := streams; fc_all_len := all_len; fc_drained := drained;
+     fc_nfiles := fc_nfiles fc; fc_extracting := fc_extracting fc |}.
 
 Fixpoint min_last (l : list stream) (default : N) : N :=
   match l with
@@ -132,7 +133,8 @@ Fixpoint min_last (l : list stream) (default : N) : N :=
 (* one pass through process_file_context in which the final channel delivered messages up to total
    [now] (= all_msgs.len() + drained afterwards; the FileInfo frame reports it) *)
 Definition tick_fc (fc : fctx) (now : N) : res fctx :=
-  if fc_paused fc then Ok fc
+  if fc_extracting fc then Ok fc          (* ProgressPoll::Progress: a Progress frame, sleep, return *)
+  else if fc_paused fc then Ok fc
   else
     let all_msgs_len := match fc_collect fc with CNone => fc_all_len fc | _ => N.max (fc_all_len fc) now end in
     (streams <- tick_streams all_msgs_len (fc_drained fc) (fc_streams fc) ;;
@@ -154,12 +156,26 @@ Definition tick (st : state) (now : N) : res state :=
 (* what the client sees of process_file_context between two replies *)
 Inductive tevent :=
 | TMsgs (now : N)      (* a pass that received messages: FileInfo{nr_msgs = now} *)
-| TDone (id : N).      (* the query id was finished and removed *)
+| TDone (id : N)       (* the query id was finished and removed *)
+| TExtracted (nfiles : N).  (* ProgressPoll::Done: file_streams := the extracted files (nfiles of them with a DLT
+                               message, possibly 0), pending_extract := None, parser thread created *)
+
+Definition extracted (st : state) (nfiles : N) : state :=
+  match st_fc st with
+  | Some fc =>
+      if fc_extracting fc then
+        with_fc st {| fc_collect := fc_collect fc; fc_sort := fc_sort fc; fc_plugins := fc_plugins fc; fc_paused := fc_paused fc;
+                      fc_streams := fc_streams fc; fc_all_len := fc_all_len fc; fc_drained := fc_drained fc;
+                      fc_nfiles := nfiles; fc_extracting := false |}
+      else st
+  | None => st
+  end.
 
 Definition apply_tevent (st : state) (ev : tevent) : res state :=
   match ev with
   | TMsgs now => tick st now
   | TDone id => Ok (apply_event st (EvDone id))
+  | TExtracted n => Ok (extracted st n)
   end.
 Fixpoint apply_tevents (st : state) (evs : list tevent) : res state :=
   match evs with
